@@ -258,6 +258,34 @@ def check(pm: ProgramModel, ctx: Ctx) -> None:
                                   f"model unchanged={snapshot(cm) == cbefore}, returned=written={same_content(c1['returned'], c1['written'])}, "
                                   f"repeat identical={c2['returned'] == c1['returned']} "
                                   f"({_first_diff(c1['returned'], c1['written']) if not same_content(c1['returned'], c1['written']) else _first_diff(c1['returned'], c2['returned'])})")
+            # larger models (twelve siblings / members, twelve levels, thirteen constraints, long names): a fast path, a
+            # threshold, an in-place sort of a long list or a cache with a bound only shows on these
+            from ..codec import large_models
+            for key_, lm, what_, _o in large_models(mb, ("AND", "OR", "IMPLIES"), negation=True):
+                lbefore = snapshot(lm)
+                freeze_model(lm)
+                l1 = run(pm, ci, lm, "asc")
+                if l1["mutation"]:
+                    ctx.violation("C12-PURE", f"pure:{ci.name}:large-{key_}", l1["mutation"][1] or where,
+                                  f"{ci.name}.transform modifies the model it serialises ({what_}): {l1['mutation'][0]}")
+                    continue
+                if l1["raise"]:
+                    if is_library_error(pm, l1["raise"][0]):
+                        ctx.info("C12-TOTAL", f"declines:{ci.name}:large-{key_}", l1["raise"][1] or where,
+                                 f"{ci.name}.transform declines the model ({what_}): {l1['raise'][0]}")
+                    else:
+                        ctx.violation("C12-TOTAL", f"raises:{ci.name}:large-{key_}", l1["raise"][1] or where,
+                                      f"{ci.name}.transform raises on a well-formed model ({what_}): {l1['raise'][0]}")
+                    continue
+                l2 = run(pm, ci, lm, "desc")
+                okl = snapshot(lm) == lbefore and same_content(l1["returned"], l1["written"]) \
+                    and l2["returned"] == l1["returned"] and not l2["raise"]
+                ctx.check(okl, "C12-RETURN", f"large-{key_}:{ci.name}", where,
+                          f"on a larger model too ({what_}): model unchanged, returned = written, repeated call under the "
+                          f"other set order identical",
+                          bad=f"{ci.name} on a larger model ({what_}): model unchanged={snapshot(lm) == lbefore}, "
+                              f"returned=written={same_content(l1['returned'], l1['written'])}, repeat identical="
+                              f"{l2['returned'] == l1['returned']} ({_first_diff(l1['returned'], l2['returned'])})")
         # read-back side: the streams the readers open
         readers_encoding(pm, ctx, mb)
     ctx.floor("C12", "obligations", len(ctx.obligations), 40)
